@@ -25,14 +25,27 @@ def one(src):
     import gambatools.dfa_algorithms as da
     from gambatools.global_settings import GambaTools
     D = gen.build_dfa(src)
+    from gambatools import _verif
     for algo in ALGOS:
         pre = ab.dfa(D)
         GambaTools.enable_logging = False
+        _verif.take()
         R, exc = guarded(lambda: getattr(da, algo)(D))
+        tr = _verif.take()
         ev = {"op": "minimise", "algo": algo, "fa": pre, "exc": exc, "post": ab.dfa(D), "src": src}
         if exc == "none":
             ev["res"] = ab.dfa(R)
         yield ev
+        if algo == "dfa_hopfcroft" and exc == "none" and tr and tr[0]["ev"] == "hop.start":
+            # (T) the observed splitter schedule, validated against Hopcroft.tla's step function
+            enc = lambda B: sorted(ab.enc(x) for x in B)
+            states = [{"P": [enc(B) for B in t["P"]], "W": [[enc(w[0]), ab.enc(w[1])] for w in t["W"]]}
+                      for t in tr if t["ev"] == "hop.state"]
+            pops = [{"W": enc(t["W"]), "a": ab.enc(t["a"])} for t in tr if t["ev"] == "hop.pop"]
+            end = [t for t in tr if t["ev"] == "hop.end"]
+            if end and len(states) == len(pops):
+                yield {"op": "hop_trace", "fa": pre, "states": states, "pops": pops,
+                       "final": [enc(B) for B in end[0]["P"]], "src": src}
 
 
 def drive(task):
@@ -87,6 +100,8 @@ RULE = ("every DFA of DFA(3,{a,b}) and DFA(2,{a,b}) (exhaustive; DFA(4,{a,b}) st
 
 
 def nontrivial(e):
+    if e["op"] == "hop_trace":
+        return len(e["pops"]) >= 3
     return "res" in e and len(e["res"]["Q"]) < len(e["fa"]["Q"])
 
 
